@@ -4,6 +4,7 @@
    coq/gen/Check_PrepareSteps.v, compiled on every run of the check after the translator. *)
 From Verif Require Import Base.Prelude Base.StrOrd Base.Graph Model.MapSpec Model.MapSpecSpec
   Model.PrepareSteps Model.Validate Model.ValidateSpec.
+From Verif Require Model.Pipe.
 From Verif Require Import Corr.Run_C12 Proofs.PrepareFacts Proofs.ValidateFacts Proofs.ValidateDecide.
 
 (* ---------- construction ---------- *)
@@ -89,6 +90,30 @@ Theorem C12_model_meets_spec_order : forall cleanup,
 Proof. exact model_meets_spec_order. Qed.
 Print Assumptions C12_model_meets_spec_order.
 
+(* ---------- pipeline(output, **kwargs): the property is FALSE of the code (known findings) ---------- *)
+(* Full statement (not provable):
+     forall p o kw, spec_ok (CCall p o kw false) (run (CCall p o kw false)) = true
+   i.e. a call with a missing or a surplus keyword is rejected before any user function is invoked.
+   Pipeline.run (model: Pipe.run, tied to the code by C02's and this check's correspondence) discovers a missing
+   argument lazily and an unused keyword only after the evaluation; witnesses (replayed on the real code on every
+   run, reported as KNOWN-FINDING run-missing-input-after-calls / run-surplus-input-after-calls): *)
+Theorem C12_run_rejects_before_calls_refuted :
+  (exists p o kw, call_in_scope p o kw = true /\ call_missing p o kw = true
+                  /\ spec_ok (CCall p o kw false) (run (CCall p o kw false)) = false)
+  /\ (exists p o kw, call_in_scope p o kw = true /\ call_surplus p o kw = true
+                     /\ spec_ok (CCall p o kw false) (run (CCall p o kw false)) = false).
+Proof.
+  split.
+  - exists [Pipe.mkf (s "f0") [s "o0"] [(s "z", s "z"); (s "y", s "y")] [] [(s "y", s "B0_y")] false;
+            Pipe.mkf (s "f1") [s "o1"] [(s "o0", s "o0"); (s "y", s "y")] [] [] false],
+           (s "o1"), [(s "z", s "v_z")].
+    repeat split; vm_compute; reflexivity.
+  - exists [Pipe.mkf (s "f2") [s "o2"] [(s "x", s "x"); (s "o0", s "o0")] [] [(s "o0", s "B2_o0")] false],
+           (s "o2"), [(s "x", s "v_x"); (s "zz", s "v_zz")].
+    repeat split; vm_compute; reflexivity.
+Qed.
+Print Assumptions C12_run_rejects_before_calls_refuted.
+
 (* ---------- non-vacuity ---------- *)
 Module Ex.
   Definition A (n : string) (ax : list (option str)) : aspec := {| aname := s n; axes := ax |}.
@@ -114,6 +139,20 @@ Proof.
   split; [vm_compute; reflexivity|]. split; [vm_compute; reflexivity|].
   intros f m [<-|[<-|[]]] Hs; injection Hs as <-; (split; [vm_compute; reflexivity|]);
     (split; [vm_compute; reflexivity|]); split; repeat constructor; cbn; intuition discriminate.
+Qed.
+
+(* instances of the hypotheses of the model_meets_spec theorems, and a rejected request of the map model *)
+Example C12_example_hypotheses :
+  (forall h, In h [Ex.f; Ex.g] -> routs h <> [])
+  /\ map_model (fun _ => [s "would-run"])
+        {| q_funcs := q_funcs Ex.q; q_inputs := q_inputs Ex.q; q_internal := []; q_storage := StStr (s "bogus");
+           q_registry := q_registry Ex.q; q_parallel := false; q_executor := false; q_cleanup := false;
+           q_prev := Some {| pv_inputs := q_inputs Ex.q; pv_internal := []; pv_funcs := None |} |}
+     = (Err ValueError, [], [])
+  /\ map_model (fun _ => [s "would-run"]) Ex.q
+     = (Ok tt, [E_dump_info; E_dump_inputs; E_dump_defaults; E_init_arrays], [s "would-run"]).
+Proof.
+  split; [intros h [<-|[<-|[]]]; discriminate|]. split; vm_compute; reflexivity.
 Qed.
 
 (* one instance per fault class, each rejected by the model *)
